@@ -400,6 +400,9 @@ func runC05(c *core.Ctx, o Options) {
 		}
 		c.Check(ok && nOut == 1, "K4", "Storage.GetNextSeqNum", "atomically increments and returns the incremented counter", gn.Pos(), "int(atomic.AddInt64(&counter, 1))", "GetNextSeqNum is not an atomic increment-and-return of the counter")
 	}
+	// ---- K5 premise: the number stamped is the number serialized — Int.ToBytes is the decimal text of the value last Set
+	checkIntCodec(c, "K5")
+	checkCodecs(c, "K5", map[string]bool{"set": true, "type:Int": true})
 	// ---- K9 the bytes put on the out channel are never written again: every Prepare builds its image in fresh memory
 	checkImageFresh(c, "K9")
 	// ---- K10 a stopped session takes no further number: the timer goroutines test the session context after every wake-up
